@@ -215,10 +215,9 @@ def comp_closure_res(cl, argtys, env, ctx):
     env2 = dict(env)
     names = []
     for p, ty in zip(params, argtys):
-        if not isinstance(p, str):
-            ctx.fail("closure pattern")
-        env2[p] = V(lean_name(p), ty)
-        names.append(lean_name(p))
+        binder, bound = bind_pattern(p, ty, ctx)
+        env2.update(bound)
+        names.append(binder)
     out = {}
     # pure attempt first
     saved = ctx.pure_only
@@ -423,6 +422,9 @@ def comp_call(e, env, ctx, k):
 
     def with_args(fn):
         return comp_args(e[2], env, ctx, fn)
+    mu = re.fullmatch(r":: core :: iter :: (?:Iterator|DoubleEndedIterator|ExactSizeIterator|IntoIterator) :: (\w+)", txt)
+    if mu and e[2]:
+        return comp_mcall(("mcall", e[2][0], mu.group(1), e[2][1:]), env, ctx, k)
     if txt in (":: core :: mem :: transmute",):
         def kt(vs, env2):
             if len(vs) != 1 or not is_int(vs[0].ty) or vs[0].ty[1] != "repr":
@@ -478,6 +480,9 @@ def comp_mcall(e, env, ctx, k):
                 env3[var] = V(lean_name(var), v.ty, (v.aux or 0) + 1)
                 return f"let {lean_name(var)} := some {par(a.t)}\n{k(V('()', UNIT), env3)}"
             return comp(args[0], env, ctx, kw)
+    if name == "then" and len(args) == 1 and args[0][0] == "closure" and not args[0][1]:
+        # `c.then(|| e)` is `if c { Some(e) } else { None }`
+        return comp(("if", recv, ("block", [], ("call", ("path", ["Some"]), [args[0][2]])), ("block", [], ("path", ["None"]))), env, ctx, k)
     if isinstance(name, tuple):
         # `x.#ident_next()`
         if name[1] in FUNCS:
@@ -522,7 +527,19 @@ def comp_mcall(e, env, ctx, k):
                 if pure:
                     return k(V(f"(List.map ({fn}) {par(r.t)})", LIST(rty)), env2)
                 return bind(ctx, f"mapM ({fn}) {par(r.t)}", LIST(rty), k, env2, "l")
+            if name == "position" and len(args) == 1:
+                fn, rty, pure = comp_closure_res(args[0], [ty[1]], env2, ctx)
+                if not pure or rty != BOOL:
+                    ctx.fail("position() with a closure that is not a pure predicate")
+                return k(V(f"(position ({fn}) {par(r.t)})", OPT(INT("usize"))), env2)
+            if name == "find_map" and len(args) == 1:
+                fn, rty, pure = comp_closure_res(args[0], [ty[1]], env2, ctx)
+                if not pure or not (isinstance(rty, tuple) and rty[0] == "opt"):
+                    ctx.fail("find_map() with a closure that is not a pure function into Option")
+                return k(V(f"(List.findSome? ({fn}) {par(r.t)})", rty), env2)
         if isinstance(ty, tuple) and ty[0] == "opt":
+            if name == "ok_or" and args == [("tuple", [])]:
+                return k(r, env2)       # Result<T, ()> is rendered as Option<T>
             if name == "unwrap_unchecked" and not args:
                 return bind(ctx, f"unwrapUnchecked {par(r.t)}", ty[1], k, env2, "r")
             if name in ("map", "and_then") and len(args) == 1:
@@ -586,6 +603,11 @@ def comp_struct(e, env, ctx, k):
 
 def comp_match(e, env, ctx, k):
     scrut, arms, splice = e[1], e[2], e[3]
+    if splice is None and sorted(a[0] for a in arms) == ["false", "true"]:
+        # `match c { true => a, false => b }` is `if c { a } else { b }`
+        d = dict(arms)
+        blk = lambda x: x if x[0] == "block" else ("block", [], x)
+        return comp(("if", scrut, blk(d["true"]), blk(d["false"])), env, ctx, k)
     if splice is None:
         ctx.fail("match without a repetition of arms")
     arm = ctx.interp.get(splice)
